@@ -17,6 +17,7 @@ Hooks_mix4 == ("A" :> {"stop"}) @@ ("B" :> {}) @@ ("C" :> {"start"}) @@ ("D" :> 
 Hooks_life == ("A" :> {"eval", "start", "stop"}) @@ ("B" :> {"stop"})
 Hooks_none2 == ("A" :> {}) @@ ("B" :> {})
 Hooks_none3 == ("A" :> {}) @@ ("B" :> {}) @@ ("C" :> {})
+Hooks_pillcb == ("A" :> {}) @@ ("B" :> {"stop"})
 Flags_none == [m \in Mods |-> <<{}>>]
 Hooks_ps3 == ("A" :> {}) @@ ("B" :> {"stop"}) @@ ("C" :> {})
 Hooks_sys == ("A" :> {"start"}) @@ ("B" :> {})
